@@ -21,6 +21,9 @@ type PlanC18 struct {
 	Raw       []int     `json:"raw"`      // scripted raw tcp clients that fail their handshake: start times
 	CloseAtMs int       `json:"close_at_ms"`
 	LatencyMs int       `json:"latency_ms"` // per write on every link, spreads handshakes over time
+	// AbortMs[i] > 0: client i resets its connection (RST) that long after its session was established
+	// and its messages were sent; its session is established all the same and is owed its callbacks
+	AbortMs []int `json:"abort_ms,omitempty"`
 }
 
 func genC18(t *simrt.Tape, tier string) interface{} {
@@ -35,6 +38,11 @@ func genC18(t *simrt.Tape, tier string) interface{} {
 		p.Clients = append(p.Clients, c)
 		p.StartMs = append(p.StartMs, t.Draw(span+1))
 		p.NMsg = append(p.NMsg, t.Draw(5))
+		ab := 0
+		if t.Draw(6) == 0 {
+			ab = 1 + t.Draw(span+1)
+		}
+		p.AbortMs = append(p.AbortMs, ab)
 	}
 	for i := t.Draw(3); i > 0; i-- {
 		p.Raw = append(p.Raw, t.Draw(span+1))
@@ -88,6 +96,7 @@ func runC18(w *World, pi interface{}) {
 		err         error
 		done        *Flag
 		ch          *lime.ClientChannel
+		aborted     bool
 	}
 	clis := make([]*cliState, len(p.Clients))
 	for i := range p.Clients {
@@ -127,6 +136,17 @@ func runC18(w *World, pi interface{}) {
 				if err != nil {
 					break
 				}
+			}
+			if i < len(p.AbortMs) && p.AbortMs[i] > 0 {
+				time.Sleep(time.Duration(p.AbortMs[i]) * time.Millisecond)
+				cs.aborted = true
+				w.Count("client-reset-its-connection")
+				if lk := w.LinkOfLocal(localAddrOf(f.CliTransports[i])); lk != nil {
+					lk.Cut(simnet.CutRST)
+				} else {
+					ch.Close()
+				}
+				return
 			}
 			// keep consuming the inbound streams until the session ends
 			go func() {
@@ -262,7 +282,7 @@ func runC18(w *World, pi interface{}) {
 		if len(est[cs.sid]) == 0 {
 			w.Violate("C18.no-established-callback", sig("client-established"), "client %d established session %s but the server's Established callback never fired for it\n%s", i, cs.sid, f.H.Dump(40))
 		}
-		if !cs.sawFinished {
+		if !cs.sawFinished && !cs.aborted {
 			st := lime.SessionState("")
 			if cs.ch != nil {
 				st = cs.ch.State()
@@ -298,7 +318,7 @@ func init() {
 		Run:       runC18,
 		MaxSim:    2 * time.Hour,
 		PanicRule: "C18.panic",
-		Rule: "plans = (server with 1-3 listeners of mixed kinds, 0-5 real ClientChannel clients with start offsets and traffic, 0-2 raw clients that fail their handshake, per-write link latency to spread handshakes over time, " +
+		Rule: "plans = (server with 1-3 listeners of mixed kinds, 0-5 real ClientChannel clients with start offsets and traffic, 0-2 raw clients that fail their handshake, clients that reset their established connection, per-write link latency to spread handshakes over time, " +
 			"the instant Server.Close is called: from before ListenAndServe has started, through mid-accept and mid-handshake, to established sessions with traffic); select poll order at the queue selects is an ordinary tape choice; " +
 			"non-trivial = the server was started; distinct = distinct (plan JSON, event-log hash)",
 	})
